@@ -113,6 +113,7 @@ class Interp:
         self.symbolic_tables = None     # id(list) -> name: lookups with a bit-field index stay symbolic
         self.inverse_tables = {}        # name of table A -> name of table B with A[B[x]] = x
         self.oob = []                   # (index, size) of reads of constant tables with a concrete index outside the table
+        self.diverged = []              # (loop, path): a loop head state that recurs with no decision left open
         self.uninit_reads = []          # (location, where): scalar reads of storage that was allocated and never written
         self.oob_may = []               # (table, index value, (lo, hi), size, where): index range of a constant-table read leaves the table
         self.const_override = None      # qualified global name -> value: analyse the code for another value of a constant
@@ -1219,6 +1220,21 @@ class Interp:
         out = []
         for s, v in self.ev(n['e'], st, fr):
             self.emit('delete', s, node=n, val=v, isarr=n.get('isarr'))
+            if v[0] == 'p' and n.get('isarr') and v[2] and v[2][-1] == 0:
+                # delete[] of an array of class objects: the element destructor runs once per element
+                cnt = s.mem.get((v[1], v[2][:-1] + ('$count',)))
+                elt = s.mem.get((v[1], v[2][:-1] + ('$elt',)))
+                et = self.T(elt[1]) if elt is not None and elt[0] == 'type' else None
+                dt = self._dtor_of(et.get('rec')) if et and et.get('k') == 'rec' else None
+                if dt is not None and cnt is not None and cnt[0] == 'c' and 0 <= cnt[1] <= 64 and fr.depth < self.inline_depth:
+                    cur = [s]
+                    for i in range(cnt[1] - 1, -1, -1):
+                        nxt = []
+                        for s1 in cur:
+                            nxt += [s2 for s2, _ in self.inline(dt, s1, fr, n, P(v[1], v[2][:-1] + (i,)), [], [])]
+                        cur = nxt
+                    out += [(s2, TOP) for s2 in cur]
+                    continue
             if v[0] == 'p' and not n.get('isarr'):
                 l = (v[1], v[2])
                 dyn = s.mem.get((l[0], l[1] + ('$dyn',)))
@@ -1862,6 +1878,10 @@ class Interp:
             for s in after:
                 k = s.key()
                 if k in seen:
+                    # the same state again at the loop head: if nothing in this round was decided by a fork, every execution that
+                    # reaches this state goes round for ever
+                    if self.stats['forks'] == forks0 and not r.brk and not r.ret and cond is not None:
+                        self.diverged.append((nloc(n), tuple(str(x) for x in s.trace[-6:])))
                     continue
                 seen[k] = s
                 if not abstract and (self.concrete_loops or iters < 3 or self.stats['forks'] == forks0):
